@@ -80,3 +80,194 @@ def function_evaluate():
         r is Ok && fn_fin(*self) && state_fin(solution.entries@) ==> r->Ok_0.0@ == XR::Fin(fn_val(*self, solution.entries@)),
         r is Ok && self.function is None ==> r->Ok_0.0@ == XR::Fin(0real),
         r is Ok && self.function is Some && self.function->Some_0 is Constant ==> r->Ok_0.0 == self.function->Some_0->Constant_0,''' % RES)
+
+
+# ---------------------------------------------------------------- C05 units
+EC_RES = 'Result<(EvaluatedConstraint, BTreeSet<u64>), VErr>'
+
+
+def constraint_function():
+    return Unit('Constraint::function', 'v1_ext/constraint.rs', 'function', impl=r'impl Constraint \{',
+                sig='pub fn function(&self) -> Cow<Function>', wrap=('impl Constraint {', '}'),
+                header='''pub fn function(&self) -> (r: Function)
+    ensures r == cfun(*self),''',
+                subs=[('Cow::Borrowed(f)', 'f.vclone()'), ('Cow::Owned(Function::zero())', 'Function::zero()')])
+
+
+def instance_objective():
+    return Unit('Instance::objective', 'v1_ext/instance.rs', 'objective', impl=r'impl Instance \{',
+                sig='pub fn objective(&self) -> Cow<Function>', wrap=('impl Instance {', '}'),
+                header='''pub fn objective(&self) -> (r: Function)
+    ensures r == ofun(*self),''',
+                subs=[('Cow::Borrowed(f)', 'f.vclone()'), ('Cow::Owned(Function::zero())', 'Function::zero()')])
+
+
+def is_feasible():
+    return Unit('EvaluatedConstraint::is_feasible', 'v1_ext/constraint.rs', 'is_feasible', impl=r'impl EvaluatedConstraint \{',
+                sig='pub fn is_feasible(&self, atol: f64) -> Result<bool>', wrap=('impl EvaluatedConstraint {', '}'),
+                header='''pub fn is_feasible(&self, atol: F64) -> (r: Result<bool, VErr>)
+    ensures r is Ok <==> (xr_lt(XR::Fin(0real), atol@) && eq_ok(self.equality)),
+            r is Ok ==> r->Ok_0 == holds(self.equality, self.evaluated_value@, atol@),''')
+
+
+def constraint_evaluate():
+    return Unit('Constraint::evaluate', E, 'evaluate', impl=r'impl Evaluate for Constraint \{',
+                sig='fn evaluate(&self, solution: &State) -> Result<(Self::Output, BTreeSet<u64>)>',
+                wrap=('impl Constraint {', '}'),
+                header='''pub fn evaluate(&self, solution: &State) -> (r: %s)
+    ensures r is Ok <==> fn_present(cfun(*self), solution.entries@),
+            r is Ok ==> ec_of(*self, solution.entries@, r->Ok_0.0) && r->Ok_0.0.removed_reason is None && r->Ok_0.0.dual_variable is None
+                && r->Ok_0.0.removed_reason_parameters@ =~= Map::empty(),
+            r is Ok ==> r->Ok_0.1@ == fn_ids(cfun(*self)),''' % EC_RES,
+                subs=[('used_ids.iter().cloned().collect()', 'btreeset_to_vec(&used_ids)')])
+
+
+def removed_constraint_evaluate():
+    return Unit('RemovedConstraint::evaluate', E, 'evaluate', impl=r'impl Evaluate for RemovedConstraint \{',
+                sig='fn evaluate(&self, solution: &State) -> Result<(Self::Output, BTreeSet<u64>)>',
+                wrap=('impl RemovedConstraint {', '}'),
+                header='''pub fn evaluate(&self, solution: &State) -> (r: %s)
+    ensures r is Ok <==> self.constraint is Some && fn_present(cfun(self.constraint->Some_0), solution.entries@),
+            r is Ok ==> ec_of(self.constraint->Some_0, solution.entries@, r->Ok_0.0)
+                && r->Ok_0.0.removed_reason == Some(self.removed_reason) && r->Ok_0.0.removed_reason_parameters == self.removed_reason_parameters
+                && r->Ok_0.0.dual_variable is None,
+            r is Ok ==> r->Ok_0.1@ == fn_ids(cfun(self.constraint->Some_0)),''' % EC_RES)
+
+
+def bound_try_from_v1bound():
+    return Unit('TryFrom<v1::Bound> for Bound', 'bound.rs', 'try_from', impl=r'impl TryFrom<v1::Bound> for Bound \{', anyhow=False,
+                sig='fn try_from(value: v1::Bound) -> Result<Self, Self::Error>',
+                wrap=('impl Bound {', '}'),
+                header='''pub fn try_from_v1_bound(value: v1::Bound) -> (r: Result<Self, BoundError>)
+        ensures r is Ok <==> inv(value.lower@, value.upper@),
+                r is Ok ==> r->Ok_0.lower == value.lower && r->Ok_0.upper == value.upper,''')
+
+
+def bound_try_from_dv():
+    return Unit('TryFrom<&v1::DecisionVariable> for Bound', 'bound.rs', 'try_from', impl=r'impl TryFrom<&v1::DecisionVariable> for Bound \{', anyhow=False,
+                sig='fn try_from(v: &v1::DecisionVariable) -> Result<Self, Self::Error>',
+                wrap=('impl Bound {', '}'),
+                header='''pub fn try_from_dv(v: &v1::DecisionVariable) -> (r: Result<Self, BoundError>)
+        ensures r is Ok <==> dv_bound_ok(*v),
+                r is Ok ==> r->Ok_0.wf() && r->Ok_0.lower@ == dv_lower(*v) && r->Ok_0.upper@ == dv_upper(*v),''',
+                subs=[('Self::try_from(bound.vclone())', 'Self::try_from_v1_bound(bound.vclone())')])
+
+
+def get_bounds():
+    return Unit('Instance::get_bounds', 'v1_ext/instance.rs', 'get_bounds', impl=r'impl Instance \{',
+                sig='pub fn get_bounds(&self) -> Result<Bounds>', wrap=('impl Instance {', '}'),
+                header='''pub fn get_bounds(&self) -> (r: Result<Bounds, VErr>)
+    ensures r is Ok <==> forall|i: int| 0 <= i < self.decision_variables.len() ==> dv_bound_ok(#[trigger] self.decision_variables[i]),
+            r is Ok ==> bounds_of(self.decision_variables@, self.decision_variables.len() as int, r->Ok_0@),''',
+                subs=[('bound.vclone().try_into()?', 'Bound::try_from_v1_bound(bound.vclone())?')],
+                loops=[dict(kind='for', it='it_1', inv='''invariant
+            forall|i: int| 0 <= i < it_1.index@ ==> dv_bound_ok(#[trigger] self.decision_variables[i]),
+            bounds_of(self.decision_variables@, it_1.index@ as int, bounds@),''')])
+
+
+def check_bound():
+    return Unit('Instance::check_bound', 'v1_ext/instance.rs', 'check_bound', impl=r'impl Instance \{',
+                sig='pub fn check_bound(&self, state: &State, atol: f64) -> Result<()>', wrap=('impl Instance {', '}'),
+                header='''pub fn check_bound(&self, state: &State, atol: F64) -> (r: Result<(), VErr>)
+    ensures r is Ok <==> ((forall|i: int| 0 <= i < self.decision_variables.len() ==> dv_bound_ok(#[trigger] self.decision_variables[i]))
+                && state_in_bounds(self.decision_variables@, state.entries@, atol@)),''',
+                subs=[('state.entries.iter()', 'hashmap_iter_collect(&state.entries)')],
+                loops=[dict(kind='for', it='it_1', rebind='(__e.0, __e.1)',
+                            body_proof=' proof { assert(*__e == __h1[it_1.index@ as int]); }',
+                            inv='''invariant
+            bounds_of(self.decision_variables@, self.decision_variables.len() as int, bounds@),
+            forall|j: int| 0 <= j < __h1.len() ==> state.entries@.contains_key(*(#[trigger] __h1[j]).0) && state.entries@[*__h1[j].0] == *__h1[j].1,
+            forall|k: u64| state.entries@.contains_key(k) ==> exists|j: int| 0 <= j < __h1.len() && *(#[trigger] __h1[j]).0 == k,
+            forall|j: int| 0 <= j < it_1.index@ ==> value_in_bounds(self.decision_variables@, *(#[trigger] __h1[j]).0, (*__h1[j].1)@, atol@),''')],
+                proofs=[(('before', r'Ok\(\(\)\)\s*\}\s*$'), '''proof {
+            assert forall|k: u64| state.entries@.contains_key(k) implies value_in_bounds(self.decision_variables@, k, state.entries@[k]@, atol@) by {
+                let j = choose|j: int| 0 <= j < __h1.len() && *(#[trigger] __h1[j]).0 == k;
+                assert(value_in_bounds(self.decision_variables@, *__h1[j].0, (*__h1[j].1)@, atol@));
+            }
+        }
+        ''')])
+
+
+def instance_evaluate():
+    return Unit('Instance::evaluate', E, 'evaluate', impl=r'impl Evaluate for Instance \{',
+                sig='fn evaluate(&self, state: &State) -> Result<(Self::Output, BTreeSet<u64>)>',
+                wrap=('impl Instance {', '}'),
+                header='''pub fn evaluate(&self, state: &State) -> (r: Result<(Solution, BTreeSet<u64>), VErr>)
+    ensures
+      // rejected states: a bound violated by more than 1e-7 (or an invalid bound), or a used variable without a value
+      r is Ok ==> (forall|i: int| 0 <= i < self.decision_variables.len() ==> dv_bound_ok(#[trigger] self.decision_variables[i]))
+            && state_in_bounds(self.decision_variables@, state.entries@, XR::Fin(1real / 10000000real)),
+      r is Ok ==> fn_present(ofun(*self), state.entries@)
+            && (forall|i: int| 0 <= i < self.constraints.len() ==> fn_present(cfun(#[trigger] self.constraints[i]), state.entries@))
+            && (forall|j: int| 0 <= j < self.removed_constraints.len() ==> (#[trigger] self.removed_constraints[j]).constraint is Some
+                    && fn_present(cfun(self.removed_constraints[j].constraint->Some_0), state.entries@)),
+      r is Ok ==> ({
+        let sol = r->Ok_0.0;
+        let nc = self.constraints.len() as int;
+        let nr = self.removed_constraints.len() as int;
+        let st = state.entries@;
+        let atol = XR::Fin(1real / 1000000real);
+        // every active then every removed constraint, exactly once, in order
+        &&& sol.evaluated_constraints.len() == nc + nr
+        &&& forall|i: int| 0 <= i < nc ==> ec_of(self.constraints[i], st, #[trigger] sol.evaluated_constraints[i]) && sol.evaluated_constraints[i].removed_reason is None
+        &&& forall|j: int| 0 <= j < nr ==> ec_of(self.removed_constraints[j].constraint->Some_0, st, #[trigger] sol.evaluated_constraints[nc + j])
+              && sol.evaluated_constraints[nc + j].removed_reason == Some(self.removed_constraints[j].removed_reason)
+              && sol.evaluated_constraints[nc + j].removed_reason_parameters == self.removed_constraints[j].removed_reason_parameters
+        // feasibility flags
+        &&& sol.feasible_relaxed == Some(out_hold(sol.evaluated_constraints@, nc, atol))
+        &&& sol.feasible == out_hold(sol.evaluated_constraints@, nc + nr, atol)
+        // objective
+        &&& fn_fin(ofun(*self)) && state_fin(st) ==> sol.objective@ == XR::Fin(fn_val(ofun(*self), st))
+        &&& sol.decision_variables == self.decision_variables
+        // reported state
+        &&& sol.state is Some
+        &&& forall|i: int| 0 <= i < self.decision_variables.len() ==> sol.state->Some_0.entries@.contains_key((#[trigger] self.decision_variables[i]).id)
+        &&& ({ let mid0 = subst_map(self.decision_variables@, self.decision_variables.len() as int, st);
+             let fin_st = sol.state->Some_0.entries@;
+             // given and previously fixed values are kept unless a dependency defines the id
+             &&& forall|k: u64| mid0.contains_key(k) ==> #[trigger] fin_st.contains_key(k)
+             &&& forall|k: u64| mid0.contains_key(k) && !self.decision_variable_dependency@.contains_key(k) ==> #[trigger] fin_st[k] == mid0[k]
+             &&& forall|k: u64| self.decision_variable_dependency@.contains_key(k) ==> #[trigger] fin_st.contains_key(k)
+             // everything else is a defined variable filled with the point of its bound nearest to zero
+             &&& forall|k: u64| #![trigger fin_st.contains_key(k)] fin_st.contains_key(k) && !mid0.contains_key(k) && !self.decision_variable_dependency@.contains_key(k)
+                    ==> exists|i: int| 0 <= i < self.decision_variables.len() && (#[trigger] self.decision_variables[i]).id == k
+                        && is_ntz(dv_lower(self.decision_variables[i]), dv_upper(self.decision_variables[i]), fin_st[k]@)
+           })
+      }),
+      r is Ok ==> r->Ok_0.1@ == inst_used_ids(*self),''',
+                subs=[('if let HashMapEntry::Vacant(e) = state.entries.entry(v.id) {', 'if !state.entries.contains_key(&v.id) {'),
+                      ('let bound: crate::Bound = v.try_into()?;', 'let bound: Bound = Bound::try_from_dv(v)?;'),
+                      ('e.insert(', 'state.entries.insert(v.id, '),
+                      ('Optimality::Unspecified.into()', 'optimality_as_i32(Optimality::Unspecified)'),
+                      ('Relaxation::Unspecified.into()', 'relaxation_as_i32(Relaxation::Unspecified)')],
+                subs_all=[('used_ids.extend(used_ids_);', 'btreeset_extend(&mut used_ids, used_ids_);', 3)],
+                loops=[
+                    dict(kind='for', it='it_1', inv='''invariant
+                evaluated_constraints.len() == it_1.index@,
+                forall|i: int| 0 <= i < it_1.index@ ==> fn_present(cfun(#[trigger] self.constraints[i]), state.entries@),
+                forall|i: int| 0 <= i < it_1.index@ ==> ec_of(self.constraints[i], state.entries@, #[trigger] evaluated_constraints[i]) && evaluated_constraints[i].removed_reason is None,
+                feasible_relaxed == out_hold(evaluated_constraints@, it_1.index@ as int, XR::Fin(1real / 1000000real)),
+                used_ids@ == active_ids(self.constraints@, it_1.index@ as int),'''),
+                    dict(kind='for', it='it_2', inv='''invariant
+                nc == self.constraints.len(),
+                evaluated_constraints.len() == nc + it_2.index@,
+                forall|i: int| 0 <= i < nc ==> ec_of(self.constraints[i], state.entries@, #[trigger] evaluated_constraints[i]) && evaluated_constraints[i].removed_reason is None,
+                forall|j: int| 0 <= j < it_2.index@ ==> (#[trigger] self.removed_constraints[j]).constraint is Some && fn_present(cfun(self.removed_constraints[j].constraint->Some_0), state.entries@),
+                forall|j: int| 0 <= j < it_2.index@ ==> ec_of(self.removed_constraints[j].constraint->Some_0, state.entries@, #[trigger] evaluated_constraints[nc + j])
+                    && evaluated_constraints[nc + j].removed_reason == Some(self.removed_constraints[j].removed_reason)
+                    && evaluated_constraints[nc + j].removed_reason_parameters == self.removed_constraints[j].removed_reason_parameters,
+                feasible_relaxed == out_hold(evaluated_constraints@, nc, XR::Fin(1real / 1000000real)),
+                feasible == out_hold(evaluated_constraints@, nc + it_2.index@ as int, XR::Fin(1real / 1000000real)),
+                used_ids@ == active_ids(self.constraints@, nc).union(removed_ids(self.removed_constraints@, it_2.index@ as int)),'''),
+                    dict(kind='for', it='it_3', inv='''invariant
+                state.entries@ == subst_map(self.decision_variables@, it_3.index@ as int, st0),'''),
+                    dict(kind='for', it='it_4', inv='''invariant
+                forall|k: u64| #[trigger] mid.contains_key(k) ==> state.entries@.contains_key(k) && state.entries@[k] == mid[k],
+                forall|i: int| 0 <= i < it_4.index@ ==> state.entries@.contains_key((#[trigger] self.decision_variables[i]).id),
+                forall|k: u64| #![trigger state.entries@.contains_key(k)] state.entries@.contains_key(k) && !mid.contains_key(k)
+                    ==> exists|i: int| 0 <= i < it_4.index@ && (#[trigger] self.decision_variables[i]).id == k
+                        && is_ntz(dv_lower(self.decision_variables[i]), dv_upper(self.decision_variables[i]), state.entries@[k]@),'''),
+                ],
+                proofs=[(('before', r'let mut feasible = feasible_relaxed;'), 'let ghost nc = self.constraints.len() as int;\n        '),
+                        (('before', r'let mut state = state\.vclone\(\);'), 'let ghost st0 = state.entries@;\n        '),
+                        (('after', r'eval_dependencies\(&self\.decision_variable_dependency, &mut state\)\?;'), '\n        let ghost mid = state.entries@;')])
